@@ -71,7 +71,8 @@ def _scf_eval(inp: Dict[str, Any]) -> Dict[str, Any]:
     if inp.get("max_iter"):
         S.MAX_ITER = int(inp["max_iter"])
     names = inp["names"]
-    sp = esh.settings(method=inp["method"], eps=inp["eps"], converger=inp["converger"], sp2=inp.get("sp2"), uhf=inp.get("uhf", False), excited=inp.get("excited"))
+    sp = esh.settings(method=inp["method"], eps=inp["eps"], converger=inp["converger"], sp2=inp.get("sp2"), uhf=inp.get("uhf", False), excited=inp.get("excited"),
+                      **({"scf_backward": int(inp["scf_backward"])} if inp.get("scf_backward") else {}))
     cap = {}
     orig = B.elec_energy
 
@@ -279,6 +280,12 @@ def gen_cases(ctx: Ctx):
         if j % 2 == 0:
             c["sp2"] = [True, float(rng.choice([1e-5, 1e-7]))]
         cases.append(c)
+    # the differentiable SCF modes run their own copies of the loops (implicit backward = 1, unrolled = 2): every solver they accept x mixing parameters
+    bw = [(2, [0, 0.0]), (2, [0, 0.1]), (1, [0, 0.3]), (2, [0, 0.7]), (1, [1]), (2, [1]), (1, [2]), (2, [0, 0.3])]
+    for j in range(len(bw) if ctx.thorough else 3):
+        mode, conv = bw[(j + 3 * ctx.seed) % len(bw)] if not ctx.thorough else bw[j]
+        cases.append({"names": [str(v) for v in rng.choice(["h2o", "nh3", "ch2o", "hcn", "hf"], size=int(rng.integers(1, 3)))], "method": methods[j % 4], "eps": float(rng.choice([1e-7, 1e-9])),
+                      "converger": conv, "scf_backward": mode, "init": inits[j % 3], "seed": int(rng.integers(0, 10**6))})
     # iteration cap must be reported
     cases.append({"names": ["so2", "ch2o"], "method": "AM1", "eps": 1e-11, "converger": [0, 0.5], "max_iter": 3, "expect_flag": True})
     cases.append({"names": ["c2h4"], "method": "PM3", "eps": 1e-11, "converger": [2], "max_iter": 2, "expect_flag": True})
